@@ -26,6 +26,10 @@
 (* Names are strings; a qualified name is written with dots ("a.inner.r"). *)
 (* Every helper is LOCAL: the module is EXTENDed by the generated data     *)
 (* module next to Datalog.tla and must export nothing but Flatten.         *)
+(* No parameter or LET name here may be spelled like a VARIABLE of          *)
+(* Datalog.tla (pi edb I si iters k oob): TLC's level bound goes by name,   *)
+(* would take  Programs == <<Flatten(..)>>  for state-dependent and expand  *)
+(* every program again on every reference (measured: 2106 times).           *)
 (***************************************************************************)
 LOCAL INSTANCE Integers
 LOCAL INSTANCE Sequences
@@ -65,13 +69,13 @@ LOCAL CompLookup(CP, scope, name, b) ==
        ELSE IF scope = 0 THEN 0
        ELSE LET r == CompLookupBases(CP, scope, 1, name, b) IN
             IF r.stop THEN r.idx ELSE CompLookup(CP, CP.comps[scope].encl, name, b)
-LOCAL CompLookupBases(CP, scope, k, name, b) ==
-    IF k > Len(CP.comps[scope].bases) THEN [stop |-> FALSE, idx |-> 0]
-    ELSE LET base == CompLookup(CP, CP.comps[scope].encl, CP.comps[scope].bases[k].name, b) IN
+LOCAL CompLookupBases(CP, scope, at, name, b) ==
+    IF at > Len(CP.comps[scope].bases) THEN [stop |-> FALSE, idx |-> 0]
+    ELSE LET base == CompLookup(CP, CP.comps[scope].encl, CP.comps[scope].bases[at].name, b) IN
          IF base = scope THEN [stop |-> TRUE, idx |-> 0]
-         ELSE IF base = 0 THEN CompLookupBases(CP, scope, k + 1, name, b)
+         ELSE IF base = 0 THEN CompLookupBases(CP, scope, at + 1, name, b)
          ELSE LET f == CompLookup(CP, base, name, b) IN
-              IF f # 0 THEN [stop |-> TRUE, idx |-> f] ELSE CompLookupBases(CP, scope, k + 1, name, b)
+              IF f # 0 THEN [stop |-> TRUE, idx |-> f] ELSE CompLookupBases(CP, scope, at + 1, name, b)
 
 \* ---- renaming of relation references (fixNames: every Atom of a clause) ---
 LOCAL Ren(n, names, inst) == IF n \in names THEN inst \o "." \o n ELSE n
@@ -84,6 +88,16 @@ LOCAL RenClause(c, names, inst) ==
     [c EXCEPT !.head = [@ EXCEPT !.rel = Ren(@, names, inst)],
               !.body = [i \in 1..Len(@) |-> RenLit(@[i], names, inst)]]
 LOCAL RenClauses(cs, names, inst) == [i \in 1..Len(cs) |-> RenClause(cs[i], names, inst)]
+
+\* the clauses of cs whose head relation is (yes = TRUE) / is not (yes = FALSE) in S
+RECURSIVE CompHeads(_, _, _), CompKeep(_, _)
+LOCAL CompHeads(cs, S, yes) ==
+    IF cs = <<>> THEN <<>>
+    ELSE (IF (Head(cs).head.rel \in S) = yes THEN <<Head(cs)>> ELSE <<>>) \o CompHeads(Tail(cs), S, yes)
+\* the clauses of cs whose head relation (first qualifier) is not overridden
+LOCAL CompKeep(cs, ov) ==
+    IF cs = <<>> THEN <<>>
+    ELSE (IF FirstQual(Head(cs).head.rel) \notin ov THEN <<Head(cs)>> ELSE <<>>) \o CompKeep(Tail(cs), ov)
 
 \* ---- getInstantiatedContent / collectContent -------------------------------
 \* The accumulator acc = [rels, clauses, orph]: ComponentContent `res` plus the shared list of orphan clauses
@@ -109,11 +123,11 @@ LOCAL CompInst(CP, init, encl, orph, ov, b) ==
         clauses |-> RenClauses(r.clauses, names, init.inst),
         orph    |-> RenClauses(r.orph, names, init.inst)]
 
-\* the instantiations inits[k..] written inside declaration ci, appended to acc
-LOCAL CompInsts(CP, inits, k, ci, acc, ov, b) ==
-    IF k > Len(inits) THEN acc
-    ELSE LET x == CompInst(CP, inits[k], ci, acc.orph, ov, b) IN
-         CompInsts(CP, inits, k + 1, ci,
+\* the instantiations inits[at..] written inside declaration ci, appended to acc
+LOCAL CompInsts(CP, inits, at, ci, acc, ov, b) ==
+    IF at > Len(inits) THEN acc
+    ELSE LET x == CompInst(CP, inits[at], ci, acc.orph, ov, b) IN
+         CompInsts(CP, inits, at + 1, ci,
                    [rels |-> acc.rels \o x.rels, clauses |-> acc.clauses \o x.clauses, orph |-> x.orph], ov, b)
 
 \* collectContent: base components first (recursively), then the local relations and clauses
@@ -126,56 +140,53 @@ LOCAL CompCollect(CP, ci, b, encl, acc, ov) ==
         rels2 == a1.rels \o local
         index == Names(rels2)
         \* clauses of a relation overridden further down the hierarchy are not inherited
-        keep  == SelectSeq(c.clauses, LAMBDA cl : FirstQual(cl.head.rel) \notin ov)
-        mine  == SelectSeq(keep, LAMBDA cl : cl.head.rel \in index)
-        orph1 == a1.orph \o SelectSeq(keep, LAMBDA cl : cl.head.rel \notin index)
+        keep  == CompKeep(c.clauses, ov)
+        orph1 == a1.orph \o CompHeads(keep, index, FALSE)
     IN [rels    |-> rels2,
-        clauses |-> a1.clauses \o mine \o SelectSeq(orph1, LAMBDA cl : cl.head.rel \in index),
-        orph    |-> SelectSeq(orph1, LAMBDA cl : cl.head.rel \notin index)]
+        clauses |-> a1.clauses \o CompHeads(keep, index, TRUE) \o CompHeads(orph1, index, TRUE),
+        orph    |-> CompHeads(orph1, index, FALSE)]
 
-LOCAL CompCollectBases(CP, ci, k, b, encl, acc, sov) ==
-    IF k > Len(CP.comps[ci].bases) THEN acc
-    ELSE LET base == CP.comps[ci].bases[k]
+LOCAL CompCollectBases(CP, ci, at, b, encl, acc, sov) ==
+    IF at > Len(CP.comps[ci].bases) THEN acc
+    ELSE LET base == CP.comps[ci].bases[at]
              bi   == CompLookup(CP, encl, base.name, b)
          IN IF bi = 0 THEN Assert(FALSE, <<"Components.tla: base component not found", base>>)
             ELSE LET bc == CP.comps[bi]
                      ab == Extend(b, bc.params, base.args)
                      a1 == CompInsts(CP, bc.inits, 1, bi, acc, {}, ab)      \* the base's own nested instances
                      a2 == CompCollect(CP, bi, ab, bc.encl, a1, sov)
-                 IN CompCollectBases(CP, ci, k + 1, b, encl, a2, sov)
+                 IN CompCollectBases(CP, ci, at + 1, b, encl, a2, sov)
 
 \* ---- a stratification of the flat program (finest: the SCCs of the dependency graph) ----------------------
 RECURSIVE LitRels(_)
 LOCAL LitRels(l) == CASE l.k \in {"atom", "neg"} -> {l.rel}
                       [] l.k = "agg" -> UNION {LitRels(l.body[i]) : i \in 1..Len(l.body)}
                       [] OTHER -> {}
+LOCAL BodyRels(c) == UNION {LitRels(c.body[j]) : j \in 1..Len(c.body)}
+LOCAL CompStep(X) == X \cup UNION {{<<p[1], q[2]>> : q \in {z \in X : z[1] = p[2]}} : p \in X}
+RECURSIVE CompLfp(_), CompSetSeq(_), CompOrder(_, _, _)
+LOCAL CompLfp(X) == IF CompStep(X) = X THEN X ELSE CompLfp(CompStep(X))
+LOCAL CompSetSeq(S) == IF S = {} THEN <<>> ELSE LET x == CHOOSE y \in S : TRUE IN <<x>> \o CompSetSeq(S \ {x})
+\* everything the set of relations S depends on (S included), C the reflexive-transitive dependency relation
+LOCAL CompBelow(S, N, C) == {s \in N : \E r \in S : <<s, r>> \in C}
+LOCAL CompOrder(Ss, N, C) ==
+    IF Ss = {} THEN <<>>
+    ELSE LET m == CHOOSE x \in Ss : \A y \in Ss : Cardinality(CompBelow(x, N, C)) <= Cardinality(CompBelow(y, N, C))
+         IN <<CompSetSeq(m)>> \o CompOrder(Ss \ {m}, N, C)
 LOCAL Stratify(rels, clauses) ==
     LET N  == Names(rels)
         E0 == {<<x, x>> : x \in N} \cup
-              UNION {{<<d, clauses[i].head.rel>> :
-                         d \in UNION {LitRels(clauses[i].body[j]) : j \in 1..Len(clauses[i].body)}}
-                     : i \in 1..Len(clauses)}
-        Step(X) == X \cup UNION {{<<p[1], q[2]>> : q \in {z \in X : z[1] = p[2]}} : p \in X}
-        RECURSIVE Lfp(_)
-        Lfp(X) == IF Step(X) = X THEN X ELSE Lfp(Step(X))
-        C   == Lfp(E0)
-        Scc(r)  == {s \in N : <<s, r>> \in C /\ <<r, s>> \in C}
-        Below(S) == {s \in N : \E r \in S : <<s, r>> \in C}      \* everything S depends on (S included)
-        RECURSIVE SetSeq(_)
-        SetSeq(S) == IF S = {} THEN <<>> ELSE LET x == CHOOSE y \in S : TRUE IN <<x>> \o SetSeq(S \ {x})
-        RECURSIVE Order(_)
-        Order(Ss) == IF Ss = {} THEN <<>>
-                     ELSE LET m == CHOOSE x \in Ss : \A y \in Ss : Cardinality(Below(x)) <= Cardinality(Below(y))
-                          IN <<SetSeq(m)>> \o Order(Ss \ {m})
-    IN Order({Scc(r) : r \in N})
+              UNION {{<<d, clauses[i].head.rel>> : d \in BodyRels(clauses[i])} : i \in 1..Len(clauses)}
+        C  == CompLfp(E0)
+    IN CompOrder({{s \in N : <<s, r>> \in C /\ <<r, s>> \in C} : r \in N}, N, C)
 
 \* ---- ComponentInstantiationTransformer::transform ---------------------------
 RECURSIVE CompTop(_, _, _)
-LOCAL CompTop(CP, k, acc) ==
-    IF k > Len(CP.inits) THEN acc
-    ELSE LET x == CompInst(CP, CP.inits[k], 0, <<>>, {}, NoBinding) IN
+LOCAL CompTop(CP, at, acc) ==
+    IF at > Len(CP.inits) THEN acc
+    ELSE LET x == CompInst(CP, CP.inits[at], 0, <<>>, {}, NoBinding) IN
          \* what is still an orphan at the top refers to a global relation: added as it is
-         CompTop(CP, k + 1, [rels |-> acc.rels \o x.rels, clauses |-> acc.clauses \o x.clauses \o x.orph])
+         CompTop(CP, at + 1, [rels |-> acc.rels \o x.rels, clauses |-> acc.clauses \o x.clauses \o x.orph])
 
 LOCAL FlatRel(r) == [name |-> r.name, arity |-> r.arity, types |-> r.types,
                      input |-> r.input, output |-> r.output, eqrel |-> r.eqrel]
@@ -184,8 +195,7 @@ Flatten(CP) ==
     LET t    == CompTop(CP, 1, [rels |-> CP.rels, clauses |-> CP.clauses])
         rels == [i \in 1..Len(t.rels) |-> FlatRel(t.rels[i])]
         decl == {t.clauses[i].head.rel : i \in 1..Len(t.clauses)} \cup
-                UNION {UNION {LitRels(t.clauses[i].body[j]) : j \in 1..Len(t.clauses[i].body)}
-                       : i \in 1..Len(t.clauses)}
+                UNION {BodyRels(t.clauses[i]) : i \in 1..Len(t.clauses)}
     IN IF Cardinality(Names(rels)) # Len(rels)
        THEN Assert(FALSE, <<"Components.tla: relation declared twice (souffle rejects the program)", Names(rels)>>)
        ELSE IF ~(decl \subseteq Names(rels))
